@@ -11,7 +11,11 @@
     draw_state}, DrawState::draw_to_term).  [step_panics W H fails s now o] = the first site the
     real code hits when it executes call [o] in state [s]; [None] = the call returns.
 
-    Definitions only (proofs: IndProofs.SysPanicProofs).  Line numbers: /repo HEAD bee77c9.
+    Definitions only (proofs: IndProofs.SysPanicProofs).  Line numbers: /repo HEAD f8fa07f.
+    19 sites of the current code + 1 historical ([P_draw_adjust_add], module [Pre_f8fa07f]).
+    Every `+` / `-` on VisualLines / usize of src/multi.rs and src/draw_target.rs is either
+    saturating or one of: draw_target.rs:552 (-), :567 (-), :594 (+=), :630 (+), multi.rs:492 (-)
+    - the five arithmetic sites below - or listed as total after [psite].
 
     Conventions / what the guards abstract:
     * usize is 64 bits ([USIZE] = 2^64).
@@ -41,7 +45,9 @@ Inductive psite :=
 (* --- MultiState::draw *)
 | P_draw_extra_assert              (* multi.rs:302  `debug_assert_eq!(extra_lines.is_some(), len > 0)` *)
 | P_draw_scan_index                (* multi.rs:312  `&self.members[index]` in the zombie scan *)
-| P_draw_adjust_add                (* multi.rs:324  `adjust += line_count` -> draw_target.rs:675 `self.0 += rhs.0` (unchecked) *)
+| P_draw_adjust_add                (* HISTORICAL - not a site of the current code: multi.rs:324 was `adjust += line_count`
+                                      (-> draw_target.rs:675, unchecked) before fix f8fa07f made it `saturating_add`;
+                                      only [Pre_f8fa07f] (the guards of the OLD code, kept for the regression theorem) yields it *)
 | P_draw_compose_index             (* multi.rs:357  `&self.members[*index]` while composing the frame *)
 (* --- MultiState::draw_state (Drawable::state() of a member) *)
 | P_draw_state_unwrap              (* multi.rs:397  `self.members.get_mut(idx).unwrap()` *)
@@ -64,7 +70,7 @@ Inductive psite :=
     multi.rs:431 `self.members.len() - 1` (right after a push); :438 `ordering.insert(min(pos,
     len), ..)`, :442 `insert(len.saturating_sub(pos), ..)`, :446 `insert(pos + 1, ..)`, :450
     `insert(pos, ..)` with `pos < len` from `position` (Vec::insert panics only for an index
-    > len); :277/:378 `saturating_add`; :274/:375 `Ord::min`; :359 `&state.lines[..]`;
+    > len); :277/:324/:378 `saturating_add` (:324 since fix f8fa07f); :274/:375 `Ord::min`; :359 `&state.lines[..]`;
     draw_target.rs:289/:290/:328/:329 saturating; :525/:534/:541 `saturating_sub(1)`;
     :537 `i + 1` (i < n); :603/:607 `idx + 1` (idx < lines.len()); :610-613 saturating;
     :614 `" ".repeat(filler)` (filler < width, see C14 SITE_REPEAT); :644 `&self.lines[..]`
@@ -88,35 +94,347 @@ Definition member_vlc_rs (mem : member) (W : N) : N :=
 Definition oob {A} (l : list A) (i : N) : bool := N.of_nat (length l) <=? i.
 
 (* ------------------------------------------------------------------ draw_to_term *)
-(** the paint loop (draw_target.rs:577-616): `real_height += line_height` runs for a Bar line
-    that passed the `break` test `real_height.saturating_add(line_height) > term.height()` *)
+(** All row arithmetic of the guards below is the one the RUST code does ([wrapped_height_rs],
+    saturating sums), for every width including 0 - not [Draw.draw_to_term]'s, which uses
+    [Text.wrapped_height] (1 row for every line at W = 0).  For W >= 1 and counts below 2^64 the two
+    agree ([SysPanicProofs.dt_count_rs_model]). *)
+
+(** the paint loop (draw_target.rs:577-616): `real_height += line_height` (:594) runs for a Bar
+    line that passed the `break` test `real_height.saturating_add(line_height) > term.height()` (:583) *)
 Fixpoint paint_panics (ls : list line) (W H real : N) : option psite :=
   match ls with
   | [] => None
   | l :: r =>
-      let h := wrapped_height l W in
-      if is_bar l && (H <? real + h) then None                         (* break *)
+      let h := wrapped_height_rs l W in
+      if is_bar l && (H <? N.min USIZE_MAX (real + h)) then None           (* break *)
       else if is_bar l && (USIZE <=? real + h) then Some P_dt_real_add
       else paint_panics r W H (if is_bar l then real + h else real)
   end.
 
+(** what the loop leaves behind when it does not panic: `real_height` and whether a Bar line was
+    painted (then the padding has been written: `padded = true`) *)
+Fixpoint paint_real_rs (ls : list line) (W H real : N) (bar_painted : bool) : N * bool :=
+  match ls with
+  | [] => (real, bar_painted)
+  | l :: r =>
+      let h := wrapped_height_rs l W in
+      if is_bar l && (H <? N.min USIZE_MAX (real + h)) then (real, bar_painted)
+      else paint_real_rs r W H (if is_bar l then real + h else real) (bar_painted || is_bar l)
+  end.
+
+(** `*bar_count - full_height` of the arm `Bottom if full_height < *bar_count` (:552), else 0 *)
+Definition dt_shift0 (ls : list line) (n : N) (al : alignment) (W : N) : N :=
+  let full := visual_line_count_rs ls W in
+  match al with Bottom => if full <? n then n - full else 0 | Top => 0 end.
+
+(** the value written to last_line_count at :630: `real_height + shift`, `shift` reset to 0 at
+    :619-622 when no padding is on the screen *)
+Definition dt_count_rs (ls : list line) (n : N) (al : alignment) (W H : N) : N :=
+  let '(real, bar_painted) := paint_real_rs ls W H 0 false in
+  real + (if negb (starts_with_text ls) || bar_painted then dt_shift0 ls n al W else 0).
+
 (** DrawState::draw_to_term on [ls] with last_line_count [n] (the terminal calls are not
     partial; see the header for `?`) *)
 Definition dt_panics (ls : list line) (n : N) (al : alignment) (below : bool) (W H : N) : option psite :=
-  let full := visual_line_count ls W in
+  let full := visual_line_count_rs ls W in
   let in_arm := match al with Bottom => full <? n | Top => false end in
   (* :552 - the subtraction is evaluated in the match arm `Bottom if full_height < *bar_count` only *)
   if in_arm && (n <? full) then Some P_dt_shift_sub else
-  let shift0 := if in_arm then n - full else 0 in
+  let shift0 := dt_shift0 ls n al W in
   (* :567 - evaluated when `padded`; `usize::from(full_screen_padding)` is 1 or 0 *)
   if negb (starts_with_text ls) && full_pad ls shift0 H && (shift0 <? 1) then Some P_dt_pad_sub else
   match paint_panics ls W H 0 with
   | Some p => Some p
   | None =>
-      (* :630 - `*bar_count = real_height + shift`: the value [Draw.draw_to_term] returns *)
-      if USIZE <=? snd (fst (draw_to_term ls n al below W H)) then Some P_dt_count_add else None
+      (* :630 - `*bar_count = real_height + shift` *)
+      if USIZE <=? dt_count_rs ls n al W H then Some P_dt_count_add else None
   end.
 
+Section WithTerminal.
+  Variable W H : N.
+  Variable fails : N -> bool.
+
+  (* ---------------------------------------------------------------- MultiState helpers *)
+  (** MultiState::remove_idx (multi.rs:475-489), then MultiState::len (:491-493) inside the
+      assert_eq!.  [ms_remove_idx m idx] is the state after the three updates. *)
+  Definition ms_remove_idx_panics (m : mstate) (idx : N) : option psite :=
+    if memN idx (ms_free m) then None else                                  (* :476 early return *)
+    if oob (ms_members m) idx then Some P_remove_members_index else          (* :480 *)
+    let m' := ms_remove_idx m idx in
+    if (length (ms_members m') <? length (ms_free m'))%nat then Some P_len_sub else     (* :492 *)
+    if negb (length (ms_members m') - length (ms_free m') =? length (ms_order m'))%nat
+    then Some P_remove_assert else None.                                     (* :484 *)
+
+  (** `for index in reap_indices { self.remove_idx(index) }` (multi.rs:366-368) *)
+  Fixpoint reap_panics (zs : list N) (m : mstate) : option psite :=
+    match zs with
+    | [] => None
+    | i :: r => match ms_remove_idx_panics m i with
+                | Some p => Some p
+                | None => reap_panics r (ms_remove_idx m i)
+                end
+    end.
+
+  (** the zombie scan (multi.rs:311-327): `&self.members[index]` for every index of the ordering up
+      to and including the first non-zombie.  Since fix f8fa07f the sum is
+      `adjust = adjust.saturating_add(line_count)` (:324): no arithmetic site *)
+  Fixpoint scan_panics (order : list N) (mems : list member) : option psite :=
+    match order with
+    | [] => None
+    | i :: r =>
+        if oob mems i then Some P_draw_scan_index else
+        if negb (m_zombie (nthN mems i member_default)) then None           (* break *)
+        else scan_panics r mems
+    end.
+
+  (** MultiState::draw (multi.rs:286-382); mirrors [Sys.ms_draw] *)
+  Definition ms_draw_panics (m : mstate) (force : bool) (extra : option (list line)) (now : N)
+    : option psite :=
+    match ms_target m with
+    | TTerm tg =>                                                           (* :296 width is Some *)
+        if match extra with Some [] => true | _ => false end then Some P_draw_extra_assert else  (* :302 *)
+        match scan_panics (ms_order m) (ms_members m) with
+        | Some p => Some p
+        | None =>
+            let has_text := match extra with Some _ => true | None => false end
+                            || negb (match ms_orphans m with [] => true | _ => false end) in
+            let tg1 := if has_text then tt_adjust_clear tg (ms_zombie_lines m) else tg in
+            let force' := force || (0 <? visual_line_count (ms_orphans m) W) in
+            let '(allowed, tg2) := tt_allow tg1 force' now in
+            if negb allowed then None else                                  (* :343 rate limited *)
+            if existsb (oob (ms_members m)) (ms_order m) then Some P_draw_compose_index else   (* :357 *)
+            let ls := match extra with Some e => e | None => [] end
+                      ++ ms_orphans m
+                      ++ concat (map (member_lines (ms_members m)) (ms_order m)) in
+            match dt_panics ls (tt_n tg2) (ms_align m) (tt_below tg2) W H with          (* :364 *)
+            | Some p => Some p
+            | None =>
+                (* :366 - remove_idx reads members / free_set / ordering only, which the draw
+                   above has not touched *)
+                reap_panics (head_zombies (ms_order m) (ms_members m)) m
+            end
+        end
+    | _ => None
+    end.
+
+  (** MultiState::clear (multi.rs:463-473): drawable(true) never asks the limiter;
+      Clear(zombie_lines_count) saturates; Drawable::clear = state() + draw() on the terminal *)
+  Definition ms_clear_panics (m : mstate) : option psite :=
+    match ms_target m with
+    | TTerm tg => dt_panics [] (tt_n (tt_adjust_clear tg (ms_zombie_lines m))) (tt_align tg) (tt_below tg) W H
+    | _ => None
+    end.
+
+  (** MultiState::suspend (multi.rs:409-419); the state handed to the final draw is the one
+      [Sys.ms_suspend] computes *)
+  Definition ms_suspend_panics (m : mstate) (writes : list text) (now c : N) : option psite :=
+    match ms_clear_panics m with
+    | Some p => Some p
+    | None =>
+        let '(m1, e1, c1, _) := ms_clear W H fails m c in
+        let m1 := set_ms_target m1 (match ms_target m1 with
+                                    | TTerm tg => TTerm (mktt 0 (tt_rl tg) (tt_align tg) (tt_below tg))
+                                    | t => t
+                                    end) in
+        ms_draw_panics m1 true None now
+    end.
+
+  (** MultiState::mark_zombie (multi.rs:254-284) *)
+  Definition ms_mark_zombie_panics (m : mstate) (idx : N) : option psite :=
+    if oob (ms_members m) idx then Some P_mark_members_index else           (* :257 *)
+    match ms_order m with
+    | [] => Some P_mark_first_unwrap                                        (* :261 *)
+    | first :: _ =>
+        if negb (N.eqb idx first) then None
+        else ms_remove_idx_panics m idx     (* :283; :277/:280 only change the counters *)
+    end.
+
+  (** MultiState::insert (multi.rs:425-461) *)
+  Definition ms_insert_panics (m : mstate) (loc : iloc) : option psite :=
+    if match ms_free m with i :: _ => oob (ms_members m) i | [] => false end
+    then Some P_insert_free_index else                                      (* :427 *)
+    match ms_insert m loc with
+    | None => match loc with                                                (* :445 / :449 *)
+              | LBefore _ => Some P_insert_before_position_unwrap
+              | _ => Some P_insert_after_position_unwrap
+              end
+    | Some (m', _) =>
+        if (length (ms_members m') <? length (ms_free m'))%nat then Some P_len_sub else   (* :492 *)
+        if negb (length (ms_members m') - length (ms_free m') =? length (ms_order m'))%nat
+        then Some P_insert_assert else None                                 (* :454 *)
+    end.
+
+  (** Drawable::state() of a member = MultiState::draw_state (multi.rs:396-403) *)
+  Definition ms_store_panics (m : mstate) (idx : N) : option psite :=
+    if oob (ms_members m) idx then Some P_draw_state_unwrap else None.      (* :397 *)
+
+  Definition orelse (a : option psite) (b : option psite) : option psite :=
+    match a with Some p => Some p | None => b end.
+
+  (* ---------------------------------------------------------------- bar level *)
+  (** BarState::draw (state.rs:200-223); mirrors [Sys.bar_draw] *)
+  Definition bar_draw_panics (s : sys) (b : N) (force : bool) (now : N) : option psite :=
+    let br := get_bar s b in
+    let force' := force || finished br in
+    match b_target br with
+    | THidden => None
+    | TTerm tg =>
+        let '(allowed, tg1) := tt_allow tg force' now in
+        if negb allowed then None
+        else dt_panics (frame_of br) (tt_n tg1) (tt_align tg1) (tt_below tg1) W H
+    | TMulti idx =>
+        let m := s_mp s in
+        let bars := match ms_width W m with Some _ => frame_of br | None => [] end in
+        orelse (ms_store_panics m idx)                                      (* state.rs:212 *)
+               (ms_draw_panics (ms_store m idx [] bars) force' None now)    (* state.rs:222 *)
+    end.
+
+  (** BarState::println (state.rs:159-184) *)
+  Definition bar_println_panics (s : sys) (b : N) (msg : text) (now : N) : option psite :=
+    let br := get_bar s b in
+    match b_target br with
+    | THidden => None
+    | TTerm tg => dt_panics (text_lines msg ++ frame_of br) (tt_n tg) (tt_align tg) (tt_below tg) W H
+    | TMulti idx =>
+        let m := s_mp s in
+        let bars := match ms_width W m with Some _ => frame_of br | None => [] end in
+        orelse (ms_store_panics m idx)
+               (ms_draw_panics (ms_store m idx (text_lines msg) bars) true None now)
+    end.
+
+  (** BarState::suspend (state.rs:186-198) *)
+  Definition bar_suspend_panics (s : sys) (b : N) (writes : list text) (now : N) : option psite :=
+    let br := get_bar s b in
+    match b_target br with
+    | TMulti _ => ms_suspend_panics (s_mp s) writes now (s_calls s)
+    | THidden => None
+    | TTerm tg =>
+        orelse (dt_panics [] (tt_n tg) (tt_align tg) (tt_below tg) W H)     (* :192 drawable.clear() *)
+               (let '(tg1, e1, c1, _) := term_draw W H fails tg [] (s_calls s) in
+                let '(e2, c2) := emit_each fails c1 (map TLine writes) in
+                let s1 := set_s_calls (upd_bar s b (fun x => set_b_target x (TTerm tg1))) c2 in
+                bar_draw_panics s1 b true now)                              (* :196 *)
+    end.
+
+  Definition bar_tick_panics (s : sys) (b : N) (now : N) : option psite :=
+    bar_draw_panics (upd_bar s b (fun x => set_b_tick x (sat_add64 (b_tick x) 1))) b false now.
+
+  Definition bar_pos_update_panics (s : sys) (b : N) (f : N -> N) (now : N) : option psite :=
+    let s1 := upd_bar s b (fun x => set_b_pos x (f (b_pos x))) in
+    let '(a, ap') := ap_allow (b_ap (get_bar s1 b)) now in
+    let s2 := upd_bar s1 b (fun x => set_b_ap x ap') in
+    if a then bar_tick_panics s2 b now else None.
+
+  Definition bar_finish_panics (s : sys) (b : N) (k : fin) (now : N) : option psite :=
+    bar_draw_panics (upd_bar s b (finish_upd k)) b true now.
+
+  (** ProgressDrawTarget::mark_zombie (draw_target.rs:146-150) *)
+  Definition mark_zombie_panics (s : sys) (b : N) : option psite :=
+    match b_target (get_bar s b) with
+    | TMulti idx => ms_mark_zombie_panics (s_mp s) idx
+    | _ => None
+    end.
+
+  (** Drop for BarState (state.rs:226-240): finish (unless finished), then mark_zombie on the
+      state the finish left behind *)
+  Definition bar_drop_panics (s : sys) (b : N) (now : N) : option psite :=
+    let br := get_bar s b in
+    if finished br then mark_zombie_panics s b
+    else orelse (bar_finish_panics s b (b_on_finish br) now)
+                (mark_zombie_panics (fst (bar_finish W H fails s b (b_on_finish br) now)) b).
+
+  (** ProgressBar::set_draw_target: disconnect (draw_target.rs:211-227) = Drawable::Multi.clear()
+      of a member; then the assignment *)
+  Definition bar_set_target_panics (s : sys) (b : N) (now : N) : option psite :=
+    match b_target (get_bar s b) with
+    | TMulti idx0 =>
+        orelse (ms_store_panics (s_mp s) idx0)
+               (ms_draw_panics (ms_store (s_mp s) idx0 [] []) true None now)
+    | _ => None
+    end.
+
+  (** the argument of insert_before / insert_after is evaluated BEFORE `internalize` runs,
+      i.e. also when the bar to insert is a member already *)
+  Definition insert_ref_panics (s : sys) (bl : bloc) : option psite :=
+    match bl with
+    | BBefore r => if is_member s r then None else Some P_insert_before_index_unwrap
+    | BAfter r => if is_member s r then None else Some P_insert_after_index_unwrap
+    | _ => None
+    end.
+
+  (** One public call: the first panic site it reaches ([None]: it returns).  Same case
+      structure as [Sys.step]. *)
+  Definition step_panics (s : sys) (now : N) (o : op) : option psite :=
+    match o with
+    | OTick b => bar_tick_panics s b now
+    | OInc b d => bar_pos_update_panics s b (fun p => wadd64 p d) now
+    | ODec b d => bar_pos_update_panics s b (fun p => wsub64 p d) now
+    | OSetPos b p => bar_pos_update_panics s b (fun _ => p) now
+    | OSetLen b l => bar_draw_panics (upd_bar s b (fun x => set_b_len x (Some l))) b false now
+    | OIncLen b d => bar_draw_panics (upd_bar s b (fun x => set_b_len x (option_map (fun l => sat_add64 l d) (b_len x)))) b false now
+    | ODecLen b d => bar_draw_panics (upd_bar s b (fun x => set_b_len x (option_map (fun l => sat_sub l d) (b_len x)))) b false now
+    | OUnsetLen b => bar_draw_panics (upd_bar s b (fun x => set_b_len x None)) b false now
+    | OSetMsg b m => bar_draw_panics (upd_bar s b (fun x => set_b_msg x m)) b false now
+    | OSetPrefix b m => bar_draw_panics (upd_bar s b (fun x => set_b_prefix x m)) b false now
+    | OSetStyle _ _ => None
+    | OPrintln b m => bar_println_panics s b m now
+    | OSuspend b ws => bar_suspend_panics s b ws now
+    | OReset b =>
+        bar_draw_panics (upd_bar s b (fun x =>
+           set_b_status (set_b_ap (set_b_pos x 0) (ap_reset (b_ap x) now)) InProgress)) b false now
+    | OResetEta _ | OResetElapsed _ => None
+    | OFinish b k => bar_finish_panics s b k now
+    | OFinishUsingStyle b => bar_finish_panics s b (b_on_finish (get_bar s b)) now
+    | OForceDraw b | OSetTabWidth b => bar_draw_panics s b true now
+    | ODrop b => bar_drop_panics s b now
+    | OInsert bl b =>
+        orelse (insert_ref_panics s bl)                                     (* multi.rs:132 / :144 *)
+        match b_target (get_bar s b) with
+        | TMulti _ => None                                                  (* multi.rs:177 *)
+        | _ =>
+            let loc :=
+              match bl with
+              | BEnd => Some LEnd
+              | BIndex i => Some (LIndex i)
+              | BFromBack i => Some (LFromBack i)
+              | BAfter r => match b_target (get_bar s r) with TMulti i => Some (LAfter i) | _ => None end
+              | BBefore r => match b_target (get_bar s r) with TMulti i => Some (LBefore i) | _ => None end
+              end in
+            match loc with
+            | None => None   (* not reached: insert_ref_panics fired *)
+            | Some l =>
+                orelse (ms_insert_panics (s_mp s) l)                        (* multi.rs:182 *)
+                match ms_insert (s_mp s) l with
+                | Some (m1, _) => bar_set_target_panics (set_s_mp s m1) b now     (* multi.rs:185 *)
+                | None => None
+                end
+            end
+        end
+    | ORemove b =>
+        match b_target (get_bar s b) with
+        | TMulti idx =>
+            let s1 := upd_bar s b (fun x => set_b_target x THidden) in
+            orelse (ms_remove_idx_panics (s_mp s1) idx)                     (* multi.rs:166 *)
+                   (ms_draw_panics (ms_remove_idx (s_mp s1) idx) true None now)   (* multi.rs:167 *)
+        | _ => None
+        end
+    | OMPrintln m =>
+        let ls := match m with [] => [mkline KEmpty []] | _ => map (mkline KText) (lines_of m) end in
+        ms_draw_panics (s_mp s) true (Some ls) now
+    | OMSuspend ws => ms_suspend_panics (s_mp s) ws now (s_calls s)
+    | OMClear => ms_clear_panics (s_mp s)
+    | OSetAlign _ => None
+    end.
+End WithTerminal.
+
+(* ------------------------------------------------------------------ the code BEFORE fix f8fa07f *)
+(** REGRESSION ONLY.  The guards of the tree before /repo f8fa07f ("counting the lines of finished
+    bars on a zero-width terminal no longer overflows"), in which MultiState::draw summed the rows
+    of the head zombies with the unchecked `adjust += line_count` (finding D31).  A verbatim copy of
+    the section above; the ONLY difference is [scan_panics], which carries the running sum and
+    yields [P_draw_adjust_add] when it reaches 2^64.  Nothing but
+    [C18_zero_width_overflow_regression] refers to this module. *)
+Module Pre_f8fa07f.
 Section WithTerminal.
   Variable W H : N.
   Variable fails : N -> bool.
@@ -396,6 +714,10 @@ Section WithTerminal.
     | OSetAlign _ => None
     end.
 End WithTerminal.
+End Pre_f8fa07f.
+
+Definition step_panics_pre_f8fa07f := Pre_f8fa07f.step_panics.
+
 
 (* ------------------------------------------------------------------ API misuse, enumerated *)
 (** the handles a call goes through exist (ownership: a dropped handle cannot be used) *)
@@ -422,10 +744,6 @@ Definition counters_fit (s : sys) : Prop :=
   /\ (forall tg, ms_target (s_mp s) = TTerm tg ->
         tt_n tg + ms_zombie_lines (s_mp s) + 2 * U16 <= USIZE).
 
-(** rows of the frame composed from the members (what `draw_state.lines` holds during a draw) *)
-Definition frame_rows (W : N) (m : mstate) : N :=
-  visual_line_count (concat (map (member_lines (ms_members m)) (ms_order m))) W.
-
 (** a run that also returns the first panic: [None] = every call returned *)
 Fixpoint run_panics (W H : N) (fails : N -> bool) (s : sys) (ops : list (N * op)) : option (nat * psite) :=
   match ops with
@@ -437,12 +755,22 @@ Fixpoint run_panics (W H : N) (fails : N -> bool) (s : sys) (ops : list (N * op)
       end
   end.
 
-(** the hypotheses [counters_fit] / [frame_rows < USIZE] on every state a history visits *)
+Fixpoint run_panics_pre_f8fa07f (W H : N) (fails : N -> bool) (s : sys) (ops : list (N * op)) : option (nat * psite) :=
+  match ops with
+  | [] => None
+  | (now, o) :: r =>
+      match step_panics_pre_f8fa07f W H fails s now o with
+      | Some p => Some (O, p)
+      | None => option_map (fun kp => (S (fst kp), snd kp)) (run_panics_pre_f8fa07f W H fails (step_sys W H fails s now o) r)
+      end
+  end.
+
+(** the hypothesis [counters_fit] on every state a history visits *)
 Fixpoint hist_fits (W H : N) (fails : N -> bool) (s : sys) (ops : list (N * op)) : Prop :=
   match ops with
   | [] => True
   | (now, o) :: r =>
-      counters_fit s /\ frame_rows W (s_mp s) < USIZE /\ hist_fits W H fails (step_sys W H fails s now o) r
+      counters_fit s /\ hist_fits W H fails (step_sys W H fails s now o) r
   end.
 
 (** decidable forms of the hypotheses (for the Examples) *)
@@ -455,7 +783,7 @@ Fixpoint hist_fits_b (W H : N) (fails : N -> bool) (s : sys) (ops : list (N * op
   match ops with
   | [] => true
   | (now, o) :: r =>
-      counters_fit_b s && (frame_rows W (s_mp s) <? USIZE) && hist_fits_b W H fails (step_sys W H fails s now o) r
+      counters_fit_b s && hist_fits_b W H fails (step_sys W H fails s now o) r
   end.
 Fixpoint hist_ok_b (W H : N) (fails : N -> bool) (s : sys) (ops : list (N * op)) : bool :=
   match ops with
@@ -501,13 +829,6 @@ Definition counters_zero (s : sys) : Prop :=
 Definition counters_zero_b (s : sys) : bool :=
   forallb (fun x => match b_target x with TTerm tg => tt_n tg =? 0 | _ => true end) (s_bars s)
   && (target_n (ms_target (s_mp s)) + ms_zombie_lines (s_mp s) =? 0).
-
-(** the heap bound alone, on every state a history visits *)
-Fixpoint hist_rows (W H : N) (fails : N -> bool) (s : sys) (ops : list (N * op)) : Prop :=
-  match ops with
-  | [] => True
-  | (now, o) :: r => frame_rows W (s_mp s) < USIZE /\ hist_rows W H fails (step_sys W H fails s now o) r
-  end.
 
 (** 2^46 calls: below that the counters cannot come near usize::MAX (they grow by <= 2 * H per call) *)
 Definition CALLS_MAX : N := 70368744177664.
